@@ -11,6 +11,7 @@ pub mod util;
 mod c06_key;
 mod single;
 pub mod c07_dup;
+mod c08_order;
 mod c17_nonacq;
 mod probe;
 pub mod col;
